@@ -36,6 +36,9 @@ def items(tier):
         if not has_kind(a, ("translate", "rotate")) or True:
             out.append({"name": "uniform|" + G.show(L.B(a)), "ast": L.B(a), "law": "uniform", "tier": tier})
         out.append({"name": "grid|" + G.show(a), "ast": a, "law": "grid", "tier": tier})
+    for a in L.booleans2(tier) + L.booleans1(tier):
+        if not G.free_vars(a):
+            out.append({"name": "uniform-exactlen|" + G.show(L.B(a)), "ast": L.B(a), "law": "uniform", "exactlen": True, "tier": tier})
     for a in L.products(tier):
         if G.is_solid(a):
             out.append({"name": "uniform|" + G.show(a), "ast": a, "law": "uniform", "tier": tier})
@@ -103,6 +106,7 @@ def boundary_shares(a_solid, th, box, m):
     w = w * on
     ci = cell_index(p, box, m)
     sh = np.bincount(ci, weights=w, minlength=m ** D)
+    boundary_shares.total = float(sh.sum())
     return sh / sh.sum() if sh.sum() > 0 else sh
 
 
@@ -160,7 +164,20 @@ def run_item(item):
 
         if law == "uniform":
             N = bnd["net"] if D < 3 else bnd["net"] // 2
-            S = sample(lambda: Bd.build_tp(a).sample_random_uniform(n=N, params=prm1))
+            if item.get("exactlen"):
+                # the exact length of the Boolean boundary is supplied through set_volume(): the estimate
+                # |dA|+|dB| no longer enters, and the sampler is expected to be uniform in arclength
+                m0 = {1: 8, 2: 4}.get(D, 3)
+                sh0 = boundary_shares(a["a"], th, rbox, m0)
+                true_len = boundary_shares.total
+
+                def mk():
+                    Dx = Bd.build_tp(a)
+                    Dx.set_volume(true_len)
+                    return Dx.sample_random_uniform(n=N, params=prm1)
+                S = sample(mk)
+            else:
+                S = sample(lambda: Bd.build_tp(a).sample_random_uniform(n=N, params=prm1))
             if S is None or len(S) == 0 or S.as_tensor.dim() != 2:
                 continue
             vals = Bd.to_vals(S)
@@ -175,7 +192,7 @@ def run_item(item):
                 kind = "solid"
             elif a["k"] == "boundary" and not G.has_kind_prod(a):
                 shares = boundary_shares(a["a"], th, rbox, m)
-                thr = bnd["tv_boundary"]
+                thr = 0.02 if item.get("exactlen") else bnd["tv_boundary"]     # exact-length sampling is uniform to ~0.002
                 kind = "boundary"
             else:
                 continue
@@ -186,8 +203,8 @@ def run_item(item):
             res.setdefault("tvlist", []).append((round(d, 4), name, str(th)))
             if d > thr:
                 worst = int(np.argmax(np.abs(emp - shares)))
-                sig = _law_sig(a)
-                key = "C11|nonuniform|%s" % sig if sig in ("boolean-boundary", "overlapping-union", "concave-polygon") else "C11|nonuniform|%s|%s" % (kind, sig)
+                sig = _law_sig(a) + ("-exact-length" if item.get("exactlen") else "")
+                key = "C11|nonuniform|%s" % sig if sig in ("boolean-boundary", "overlapping-union", "concave-polygon", "boolean-boundary-exact-length") else "C11|nonuniform|%s|%s" % (kind, sig)
                 if d > SEVERE:
                     key += "|severe"
                 viol(key, "random-uniform sampling at %s: total-variation distance %.3f between the cell fractions of the pushed-forward "
@@ -273,6 +290,48 @@ def run_item(item):
                                 break
                         else:
                             res["outcomes"].append("%s|n=%d|%s|%s" % (st, n, combo, rmode))
+    if law == "lhs" and fv and len(thetas) > 1:
+        # all parameter rows in ONE call: block i must be a Latin hypercube of row i's own box
+        prm = Bd.params_points({v: [th[v] for th in thetas] for v in fv})
+        for n in (2, 3, 4):
+            for pm in ("ID", "REV", "ROT"):
+                script = {}
+                for r in range(len(thetas)):
+                    for ax in range(D):
+                        script[(r * D + ax) * 2 + 1] = pm
+                smp = tp.samplers.LHSSampler(Bd.build_tp(a), n_points=n)
+                res["transitions"] += 1
+                try:
+                    with Seam(script):
+                        S = smp.sample_points(prm)
+                except Exception as e:
+                    if not is_deliberate(e):
+                        res["extra"]["sampling_errors_left_to_C01"] = res["extra"].get("sampling_errors_left_to_C01", 0) + 1
+                    continue
+                res["evals"] += 1
+                st = "%s|all-rows|n=%d|%s" % (name, n, pm)
+                res["states"].append(st)
+                pts = np.concatenate([Bd.to_vals(S)[v] for v in order], 1)
+                if len(pts) != n * len(thetas):
+                    continue
+                good = True
+                for r, th in enumerate(thetas):
+                    rb = G.ref_box(a, vals_of_theta(th, 1))[0]
+                    blk = pts[r * n:(r + 1) * n]
+                    for ax in range(D):
+                        u = (blk[:, ax] - rb[ax, 0]) / (rb[ax, 1] - rb[ax, 0]) * n
+                        lo = np.clip(np.floor(u - 1e-4).astype(int), 0, n - 1)
+                        hi = np.clip(np.floor(u + 1e-4).astype(int), 0, n - 1)
+                        ok = any(sorted(ch) == list(range(n)) for ch in itertools.product(*[sorted({l, h}) for l, h in zip(lo, hi)]))
+                        if not ok or (u < -1e-4).any() or (u > n + 1e-4).any():
+                            good = False
+                            viol("C11|lhs-slabs-multirow|%s" % _law_sig(a), "LHS n=%d with %d parameter rows in one call: block of row %s, axis %d: slab coordinates %s do not hit each slab of that row's box once" % (
+                                n, len(thetas), th, ax, np.round(u, 3).tolist()))
+                            break
+                    if not good:
+                        break
+                if good:
+                    res["outcomes"].append(st)
     res["extra"]["tv_max_x1e4"] = 0
     res["samples"] = [{"case": name, "tv": tvs[:6]}]
     res["tvs"] = tvs
